@@ -174,26 +174,38 @@ func enumC03(t *testing.T) {
 					if car != "var" && car != "tag" && car != "rm" && st.zero {
 						variants = []bool{false, true} // present-empty and missing
 					}
+					// list of maps: besides "the same map twice", lists whose elements differ in
+					// whether they hold the key at all (each element is judged on its own)
+					patterns := [][]bool{nil}
+					if car == "listmap" {
+						patterns = [][]bool{nil, {false, true}, {true, false}, {false, true, false}, {true, false, true}}
+					}
 					for _, missing := range variants {
-						idx++
-						if idx%nshard != shard {
-							continue
-						}
-						c := c03Case(ty, st, rs, car, missing)
-						count++
-						if !(ty.name == "string" || ty.name == "int32") {
-							nt++
-							if len(samples) < 6 && count%977 == 1 {
-								samples = append(samples, c)
+						for _, pat := range patterns {
+							if pat != nil && missing {
+								continue
 							}
-						}
-						ev.Class("state=" + st.name)
-						msg, skipped := checkC03(c)
-						if skipped != "" {
-							ev.Class(skipped)
-						}
-						if msg != "" {
-							ev.Fail(t, "C03", "enum", c, "%s", msg)
+							idx++
+							if idx%nshard != shard {
+								continue
+							}
+							c := c03Case(ty, st, rs, car, missing)
+							c.ListMissing = pat
+							count++
+							if !(ty.name == "string" || ty.name == "int32") {
+								nt++
+								if len(samples) < 6 && count%977 == 1 {
+									samples = append(samples, c)
+								}
+							}
+							ev.Class("state=" + st.name)
+							msg, skipped := checkC03(c)
+							if skipped != "" {
+								ev.Class(skipped)
+							}
+							if msg != "" {
+								ev.Fail(t, "C03", "enum", c, "%s", msg)
+							}
 						}
 					}
 				}
@@ -229,6 +241,10 @@ func TestC03(t *testing.T) {
 			}
 			missing := car != "var" && car != "tag" && car != "rm" && st.zero && rapid.Bool().Draw(t, "missing")
 			c := c03Case(ty, st, rs, car, missing)
+			if car == "listmap" && !missing && rapid.Bool().Draw(t, "mixedList") {
+				c.ListMissing = rapid.SliceOfN(rapid.Bool(), 2, 4).Draw(t, "listMissing")
+				ev.Class("list-of-maps-with-mixed-presence")
+			}
 			if (car == "url" || car == "urlenc") && rapid.Bool().Draw(t, "others") {
 				c.Others = [][2]string{{"a", "1"}, {"zz", ""}}
 				c.Pos = rapid.IntRange(0, 2).Draw(t, "pos")
